@@ -54,6 +54,30 @@ def check_phi(A, geo, phi, ctx, full=True):
     return f
 
 
+def check_ll(CT, geo, lon, lat, ctx):
+    case = {'lon': lon, 'lat': lat}
+    ctx.case((lon, lat))
+    try:
+        th, ph = CT.from_lonlat((lon, lat))
+        lon2, lat2 = CT.to_lonlat((th, ph))
+    except Exception as e:
+        ctx.fail('lonlat_raises', case, exc=repr(e))
+        return case
+    beta = math.pi / 2 - ph
+    err = abs(beta - geo.auth_lat(math.radians(lat)))
+    ctx.maxi('from_lonlat_authalic_err_rad', err, case)
+    if err > 1e-10:
+        ctx.fail('from_lonlat_inaccurate', case, err=err)
+    rt = abs(math.radians(lat2 - lat))
+    ctx.maxi('lonlat_roundtrip_lat_err_rad', rt, case)
+    if rt > 1e-12 + 4e-16:
+        ctx.fail('lonlat_roundtrip', case, back=[lon2, lat2], err=rt)
+    dl = abs(((lon2 - lon) + 180) % 360 - 180)
+    if math.radians(dl) > 1e-12:
+        ctx.fail('lonlat_roundtrip_lon', case, back=[lon2, lat2])
+    return case
+
+
 def run_shard(spec, ctx):
     from a5.projections.authalic import AuthalicProjection
     import a5.core.coordinate_transforms as CT
@@ -106,26 +130,7 @@ def run_shard(spec, ctx):
             else:
                 lat = 10 ** ctx.rnd.uniform(-16, 1) * ctx.rnd.choice((-1, 1))
             lon = ctx.rnd.uniform(-180, 180)
-            case = {'lon': lon, 'lat': lat}
-            ctx.case((lon, lat))
-            try:
-                th, ph = CT.from_lonlat((lon, lat))
-                lon2, lat2 = CT.to_lonlat((th, ph))
-            except Exception as e:
-                ctx.fail('lonlat_raises', case, exc=repr(e))
-                continue
-            beta = math.pi / 2 - ph
-            err = abs(beta - geo.auth_lat(math.radians(lat)))
-            ctx.maxi('from_lonlat_authalic_err_rad', err, case)
-            if err > 1e-10:
-                ctx.fail('from_lonlat_inaccurate', case, err=err)
-            rt = abs(math.radians(lat2 - lat))
-            ctx.maxi('lonlat_roundtrip_lat_err_rad', rt, case)
-            if rt > 1e-12 + 4e-16:
-                ctx.fail('lonlat_roundtrip', case, back=[lon2, lat2], err=rt)
-            dl = abs(((lon2 - lon) + 180) % 360 - 180)
-            if math.radians(dl) > 1e-12:
-                ctx.fail('lonlat_roundtrip_lon', case, back=[lon2, lat2])
+            case = check_ll(CT, geo, lon, lat, ctx)
         ctx.sample(case)
 
 
@@ -144,5 +149,5 @@ def replay(f, ctx):
             if not A.forward(c['phi']) > A.forward(f['prev_phi']):
                 ctx.fail('not_strictly_increasing', c, prev_phi=f['prev_phi'])
     else:
-        ctx.tier = 'quick'
-        print('lon/lat case: re-run the check with the same seed to reproduce', c)
+        import a5.core.coordinate_transforms as CT
+        check_ll(CT, geo, c['lon'], c['lat'], ctx)
